@@ -13,9 +13,9 @@ echo "== demo file: $DEMO"
 GO="env -u GOTOOLCHAIN -u GOPROXY -u GOSUMDB -u GOWORK GOFLAGS=-mod=mod GOEXPERIMENT=synctest /usr/bin/go"
 echo "== suite with change"; $GO build ./... && $GO test -vet=off -count=1 ./... 2>&1 | grep -v "no test files\|^ok" | grep -v "INFO\|http_client\|Error\|expected\|in chain\|dial tcp\|lookup non\|asm_amd64\|Test:" | head -8
 echo "== demo with change (want FAIL)"; $GO test -vet=off -count=1 -run 'Seed' $PKG 2>&1 | grep -v INFO | tail -3
-git stash push -q -- $(git diff --name-only)
+CH=$(git diff --name-only); git diff > /tmp/seed/.$ID.eval.diff; git checkout -- $CH   # (git stash is shared between worktrees: not used)
 echo "== demo without change (want ok)"; $GO test -vet=off -count=1 -run 'Seed' $PKG 2>&1 | grep -v INFO | tail -2
-git stash pop -q
+git apply /tmp/seed/.$ID.eval.diff && rm -f /tmp/seed/.$ID.eval.diff
 mkdir -p /verif/seeded/$NAME
 git diff > /verif/seeded/$NAME/patch.diff
 cp "$DEMO" /verif/seeded/$NAME/demo_test.go.txt
